@@ -76,7 +76,8 @@ func tier(v [2]int, thorough bool) int {
 func (w *worker) runSpace(sp space, thorough bool) {
 	s := w.subject(sp.name, sp.params)
 	r := w.r
-	key := sp.name
+	w.spaceNo++
+	key := fmt.Sprintf("space%02d %s", w.spaceNo, sp.name)
 	if sp.params != "" {
 		key += " " + sp.params
 	}
